@@ -98,6 +98,10 @@ def _mul_maps(a: dict, b: dict, sign: int = 1) -> dict:
 
 def mul(a: HV, b: HV, sign: int = 1) -> HV:
     """a * b (sign=1) or a / b (sign=-1), element-wise or matrix products alike."""
+    if a.mixed and not b.tainted and not b.mixed:
+        return a  # multiplying an inhomogeneous array by an untainted factor keeps it inhomogeneous
+    if b.mixed and not a.tainted and not a.mixed and sign == 1:
+        return b
     if a.mixed or b.mixed:
         return TOP("derived from an inhomogeneous array")
     if a.top or b.top:
@@ -192,7 +196,8 @@ def add(a: HV, b: HV, sign: int = 1, tolerance: bool = False) -> HV:
         return HV(aff=aff)
     if same_map(a, b):
         if has_generic(a):
-            return TOP("sum of raw coordinates of (possibly different) vertices, each with its own scale")
+            return replace(a, aff=None, zero=False, const=None,
+                           mixed="sum of raw coordinates of (possibly different) vertices, each of which has its own scale")
         return replace(a, aff=None, zero=False, const=None)
     if a.tainted and b.tainted and not (a.parts or a.cols or b.parts or b.cols) and not has_generic(a) and not has_generic(b):
         da, db = a.dmap(), b.dmap()
